@@ -195,7 +195,9 @@ instance (u : Uni) (k : Key) (key : Int) (m : Nat) : Decidable (matchSpec u k ke
 /-- Keys xterm reports as `CSI 1 ; m <letter>` (modified) / `CSI <letter>` or `SS3 <letter>` (plain). -/
 def xtermLetterKeys : List (Int × Int) := [
   (KeyUp, 65), (KeyDown, 66), (KeyRight, 67), (KeyLeft, 68), (KeyEnd, 70), (KeyHome, 72),
-  (KeyF01, 80), (KeyF02, 81), (KeyF03, 82), (KeyF04, 83)]
+  (KeyF01, 80), (KeyF02, 81), (KeyF03, 82), (KeyF04, 83),
+  -- the Begin key (keypad 5 without Num Lock): `CSI E`, `SS3 E` in application cursor key mode, `CSI 1 ; m E`
+  (KeyKeyPadBegin, 69)]
 
 /-- Keys xterm reports as `CSI n ~` / `CSI n ; m ~`. -/
 def xtermTildeKeys : List (Int × Int) := [
@@ -203,7 +205,7 @@ def xtermTildeKeys : List (Int × Int) := [
   (KeyF05, 15), (KeyF06, 17), (KeyF07, 18), (KeyF08, 19), (KeyF09, 20), (KeyF10, 21),
   (KeyF11, 23), (KeyF12, 24)]
 
-def isCursorFinal (f : Int) : Bool := f = 65 ∨ f = 66 ∨ f = 67 ∨ f = 68 ∨ f = 70 ∨ f = 72
+def isCursorFinal (f : Int) : Bool := f = 65 ∨ f = 66 ∨ f = 67 ∨ f = 68 ∨ f = 69 ∨ f = 70 ∨ f = 72
 
 /-- Ctrl + character ↦ C0 byte, for the characters xterm maps (`@ a–z [ \ ] ^ _`). -/
 def ctrlByte (ch : Int) : Option Int :=
